@@ -384,9 +384,19 @@ func goLit(c *cval, qual func(types.Type) string) string {
 // tryReplay looks for a model small enough to run, trying increasing bounds on
 // slice/chunk lengths, and stops at the first model whose replay confirms the
 // failure on the real code.
+// replayDeadline bounds the time a check spends looking for concrete failing inputs
+// (set by report: 90 s in the quick tier, 600 s in the thorough tier).
+var replayDeadline time.Time
+
 func tryReplay(run *checkRun, o *Obligation, base string) string {
 	last := ""
 	for _, bound := range []uint64{16, 64, 4200, 70000} {
+		if !replayDeadline.IsZero() && time.Now().After(replayDeadline) {
+			if last == "" {
+				last = "replay: not attempted (replay time budget of this tier is used up)\n"
+			}
+			return last
+		}
 		r := tryReplayBound(run, o, base, bound)
 		if strings.Contains(r, "no length terms") {
 			return strings.Replace(r, " (no length terms)", "", 1)
